@@ -1,6 +1,7 @@
 import OrsoVerif.Lemmas.IsoText
 import OrsoVerif.Lemmas.IsoSafe
 import OrsoVerif.Lemmas.IsoEpoch
+import OrsoVerif.Lemmas.IsoFloat
 import OrsoVerif.Lemmas.IsoEpochTotal
 import OrsoVerif.Lemmas.IsoRefine
 import OrsoVerif.Lemmas.IsoChar
@@ -711,6 +712,33 @@ theorem float_epoch_truncates (b : UInt64) :
   · intro hb
     rcases hb with hb | hb <;> constructor <;>
       simp only [parseIso, parseIsoWith, body, epoch, c3, c4, if_true, intOfFloat, hb, bind_error, cv.1, cv.2.2.1]
+
+/-- **A float is read as the whole second it lies in — never carried into the next one** ("Integer,
+float … inputs are read as Unix seconds", whole seconds).  The exact magnitude of a finite double with
+bit pattern `b` is `fMant b * 2 ^ fEx b / 2 ^ 1075`; the second `z` the parser reads it as satisfies
+`|z| ≤ |x| < |z| + 1` with the sign of `x`: however close `x` is to the next whole second
+(`0.9999996`, `nextafter(1, 0)`, `1718530754.9999998` — values `datetime.fromtimestamp` would round
+up to the next microsecond and so into the next second), the result is the second of `int(x)`, the
+same as for the integer `z` itself.  A change that hands the float to `fromtimestamp` unconverted
+(rounding to the nearest microsecond, flooring negative fractions) makes the code differ from
+`parseIso` on exactly these inputs; the oracle demands `int(x)` (or `floor(x)` for a negative
+fraction) of the code's own output. -/
+theorem float_epoch_never_carries (b : UInt64) (z : Int) (h : floatTrunc b = .fin z) :
+    z.natAbs * 2 ^ 1075 ≤ fMant b * 2 ^ fEx b ∧ fMant b * 2 ^ fEx b < (z.natAbs + 1) * 2 ^ 1075 ∧
+    (z < 0 → b.toNat / 2 ^ 63 = 1) ∧
+    parseIso (.float b) = parseIso (.int z) ∧ parseIso (.npFloat b) = parseIso (.int z) := by
+  have hb := floatTrunc_brackets b z h
+  have ht := (float_epoch_truncates b).1 z h
+  exact ⟨hb.1, hb.2.1, hb.2.2, ht.1, ht.2⟩
+
+/-- Non-vacuity and the boundary instances: 0.9999995, 0.9999996, nextafter(1, 0) are second 0,
+1718530754.9999998 is second 1718530754 (09:39:14, not :15), 86399.9999999 is still 1970-01-01,
+nextafter(-1, 0) is second 0. -/
+example : floatTrunc 0x3FEFFFFEF39085F5 = .fin 0 ∧ floatTrunc 0x3FEFFFFF29406B2A = .fin 0 ∧
+    floatTrunc 0x3FEFFFFFFFFFFFFF = .fin 0 ∧ floatTrunc 0x41D99BACB0BFFFFF = .fin 1718530754 ∧
+    floatTrunc 0x40F517FFFFFFE528 = .fin 86399 ∧ floatTrunc 0xBFEFFFFFFFFFFFFF = .fin 0 ∧
+    parseIso (.float 0x41D99BACB0BFFFFF) = .value ⟨2024, 6, 16, 9, 39, 14, 0⟩ ∧
+    parseIso (.float 0x40F517FFFFFFE528) = .value ⟨1970, 1, 1, 23, 59, 59, 0⟩ := by decide
 
 /-- **The cast programs translated from the source compute the specification.**  `Iso.castRun` runs
 `Gen.IsoCast.parseDate / parseTime / parseTimestamp` — the three functions of `orso/types.py`,
